@@ -136,6 +136,10 @@ pub struct Config {
     /// the server reads with a 512-byte buffer (less than one transport read decrypts)
     #[serde(default)]
     small_reads: bool,
+    /// `max_concurrent_tls_connect` is called with another value after the first service exists
+    /// (the per-thread counter keeps the limit it was created with)
+    #[serde(default)]
+    limit_changed_later: bool,
 }
 
 #[derive(Serialize, Deserialize, Clone, Debug, PartialEq)]
@@ -158,6 +162,8 @@ pub enum Action {
     /// shut the accepted stream down from the server side (close_notify behind everything written)
     SrvShutdown(usize),
     SrvRead(usize),
+    /// the client, having delivered everything it wrote, closes its sending direction (FIN)
+    ClientFin(usize),
     CliWrite(usize, u32),
     // connsim
     C(connsim::CAction),
@@ -259,6 +265,8 @@ struct Conn {
     s_reads: u32,
     /// the server's last read returned Pending and nothing has been delivered to it since
     read_pending: bool,
+    /// the client has half-closed after delivering all of its payload
+    fin_sent: bool,
 }
 
 fn payload(seed: u64, len: usize, salt: u64) -> Vec<u8> {
@@ -327,8 +335,18 @@ async fn run_accept(cfg: &Config, ch: &mut Chooser<Action>, ctx: &mut RunCtx) ->
         a.set_handshake_timeout(timeout);
         if cfg.use_clone { a.clone() } else { a }
     };
+    let mut built = 0usize;
     let svcs: Vec<Box<dyn ErasedSvc>> = kinds
         .iter()
+        .map(|k| {
+            if built == 1 && cfg.limit_changed_later {
+                // later services of the thread still share the counter (and the limit) of the first
+                actix_tls::accept::max_concurrent_tls_connect(cfg.limit + 1);
+                ctx.bump("probe.limit_changed_between_services");
+            }
+            built += 1;
+            k
+        })
         .map(|k| match k {
             Kind::Rustls => {
                 let s = futures_now(<acc_rustls::Acceptor as ServiceFactory<Half>>::new_service(&rustls_acceptor, ()));
@@ -437,6 +455,8 @@ async fn run_accept(cfg: &Config, ch: &mut Chooser<Action>, ctx: &mut RunCtx) ->
                 if c.c_written < c.p_c2s.len() {
                     en.push((Action::CliWrite(i, 900), 2));
                     en.push((Action::CliWrite(i, 30000), 2));
+                } else if !c.fin_sent && c.outbox.is_empty() && !c.client.is_handshaking() && !c.p_c2s.is_empty() {
+                    en.push((Action::ClientFin(i), 1));
                 }
             }
         }
@@ -577,6 +597,7 @@ async fn run_accept(cfg: &Config, ch: &mut Chooser<Action>, ctx: &mut RunCtx) ->
                     s_shut: false,
                     s_reads: 0,
                     read_pending: false,
+                    fin_sent: false,
                 };
                 c.pump_client_out();
                 conns.push(c);
@@ -718,6 +739,14 @@ async fn run_accept(cfg: &Config, ch: &mut Chooser<Action>, ctx: &mut RunCtx) ->
                 c.c2s.borrow_mut().push(&[first, 1, 2, 3, 4, 5, 6, 7, 8, 9, 10, 11, 12, 13, 14, 15]);
                 ctx.bump("fault.garbage");
                 ev!(ctx, "client #{i} sends garbage");
+            }
+            Action::ClientFin(i) => {
+                // not a fault: everything written before the FIN must still be readable
+                conns[i].fin_sent = true;
+                conns[i].read_pending = false;
+                conns[i].c2s.borrow_mut().close();
+                ctx.bump("probe.client_fin_after_payload");
+                ev!(ctx, "client #{i} half-closes after its payload");
             }
             Action::Disconnect(i) => {
                 conns[i].cut = true;
@@ -866,6 +895,15 @@ async fn run_accept(cfg: &Config, ch: &mut Chooser<Action>, ctx: &mut RunCtx) ->
                         if got.is_empty() {
                             // end of stream: nothing more will come out without new input
                             c.read_pending = true;
+                            if c.fin_sent && !c.cut && c.s_read.len() < c.c_written {
+                                return Some(
+                                    Violation::new(
+                                        "payload-truncated",
+                                        format!("stream {i}: the client wrote {} bytes and then closed its sending direction; the server's read reports end of stream after {} bytes", c.c_written, c.s_read.len()),
+                                    )
+                                    .fact("acceptor", format!("{:?}", cfg.kind)),
+                                );
+                            }
                         }
                         c.s_read.extend_from_slice(&got);
                         ev!(ctx, "server #{i} reads");
@@ -1021,6 +1059,7 @@ impl Engine for TlsSim {
             stall_client: bulk,
             mixed: rng.chance(1, 3),
             small_reads: rng.chance(1, 3),
+            limit_changed_later: rng.chance(1, 4),
         }
     }
     fn max_actions(_: &str, cfg: &Config) -> usize {
@@ -1083,7 +1122,7 @@ impl Engine for TlsSim {
     }
     fn required_probes(prop: &str, _tier: Tier) -> Vec<&'static str> {
         if prop == "C18" {
-            vec!["probe.timeout_outcome", "probe.tls_error_outcome", "probe.stream_outcome", "probe.not_ready_at_limit", "probe.release_at_limit", "probe.payload_roundtrip", "probe.server_write_backpressure", "probe.server_vectored_write", "probe.server_vectored_write_partial", "probe.server_vectored_write_cut_in_second_slice", "probe.two_backends_on_one_thread", "probe.server_shutdown_completed", "probe.shutdown_under_backpressure", "probe.vectored_write_empty_first_slice", "probe.read_into_partly_filled_buffer", "probe.server_read_pending"]
+            vec!["probe.timeout_outcome", "probe.tls_error_outcome", "probe.stream_outcome", "probe.not_ready_at_limit", "probe.release_at_limit", "probe.payload_roundtrip", "probe.server_write_backpressure", "probe.server_vectored_write", "probe.server_vectored_write_partial", "probe.server_vectored_write_cut_in_second_slice", "probe.two_backends_on_one_thread", "probe.server_shutdown_completed", "probe.shutdown_under_backpressure", "probe.vectored_write_empty_first_slice", "probe.read_into_partly_filled_buffer", "probe.server_read_pending", "probe.client_fin_after_payload", "probe.limit_changed_between_services"]
         } else {
             connsim::required_probes()
         }
